@@ -54,7 +54,8 @@ class C10(PropBase):
             "split point of generated files <= 2 KiB and of the corpus witnesses, 1-byte trickle; random: chunk sizes around "
             "5/10/20/40/80/160 KiB on files with lines up to 80 KiB-1, fixed chunk sizes, tiny chunks; non-trivial = the schedule "
             "splits the input at least once and the input has >= 3 lines; distinct = distinct case lines; optional third section = body script of "
-            "parse_async (chunk sizes, 0 = empty chunk, E = failure); segment tF<k> = the k-th read() of the sync reader fails")
+            "parse_async (chunk sizes, 0 = empty chunk, E = failure); segment tF<k> = the k-th read() of the sync reader fails; family start-of-file state: "
+            "files beginning with byte order marks / blank lines / blanks / comment / NUL x first reads of 1..7 bytes (sync and parse_async)")
     trusted_base = [t.replace("vm_compute only in the non-vacuity Examples", "vm_compute in the non-vacuity Examples and in the witness theorems c10_bound_is_tight / c10_band_top_dependent / c10_old_refill_refuted (c10_band_everywhere_dependent is proved symbolically: lia / ring_simplify, no vm_compute)") for t in G.TRUSTED] + ["parse_async: a model of its own since round 5 (C10/Stream.v: the body of the reqwest::Response is a script of chunks of "
                                 "any size incl. empty ones and of failures); the harness builds a reqwest::Response whose body is a scripted "
                                 "http_body::Body (data frames incl. empty ones, an Err frame) and compares result, table, callback bytes/calls and "
@@ -365,6 +366,29 @@ class C10(PropBase):
             lines += G.gen_lines(rng, rng.below(3))[1:]
             data = G.join(rng, lines, final_nl=not rng.chance(1, 4))
             add_f("readfail-long>=80K", rng.below(30), data, G.sched_random(rng, len(data), style=rng.choice([1, 2, 3, 5])))
+        # 7. "start-of-file state": files that begin with byte sequences a tolerant parser might special-case (UTF-8 / UTF-16 / UTF-32
+        #    byte order marks, leading blank lines / blanks / CR, a `#` comment line, NUL, partial marks) x schedules whose FIRST read
+        #    returns 1, 2, 3, 4, 5 bytes (then the rest / a trickle / 2-byte reads), and for parse_async empty first chunks before a
+        #    1..4-byte chunk.  Whatever the parser does with such a prefix, it must not depend on how much of it the first read returned.
+        body = b"MODULE Linux x86 ABC name\nFILE 0 a.c\nFUNC 1000 10 0 f\n1000 10 1 0\nPUBLIC 2000 0 g\n"
+        prefixes = [b"\xef\xbb\xbf", b"\xff\xfe", b"\xfe\xff", b"\xff\xfe\x00\x00", b"\x00\x00\xfe\xff", b"\xef\xbb", b"\xef",
+                    b"\xef\xbb\xbf\xef\xbb\xbf", b"\xef\xbb\xbf\n", b"\xef\xbb\xbf\r\n", b"\n", b"\n\n\n", b"\r\n", b"\r", b"\r\r\n",
+                    b" ", b"  \t", b"\t", b" \n", b"# comment\n", b"#\n", b"//x\n", b"\x00", b"\x00\x00\x00", b"\x00\n",
+                    b"\xc2\xa0", b"\xe2\x80\x8b", b"\x1a", b"\x0c", b"\x0b", b"\xef\xbb\xbfMODULE a b c d\n", b""]
+        bodies = [body, body.replace(b"\n", b"\r\n"), body[:-1], b"MODULE Linux x86 ABC name\n"]
+        for pi, pre in enumerate(prefixes):
+            for bi, bd in enumerate(bodies if not quick else bodies[:2] + [bodies[(pi % 2) + 2]]):
+                data = pre + bd
+                n = len(data)
+                add("sof-whole", data)
+                add("sof-trickle", data, ["1*%d" % (n + 2)])
+                add("sof-2", data, ["2*%d" % (n // 2 + 2)])
+                for k in range(1, min(n, len(pre) + 3, 8)):
+                    add("sof-first", data, [str(k)])                      # first read k bytes, then everything
+                    add("sof-first-then-1", data, [str(k), "1"])          # ... then one byte, then everything
+                    add_s("sof-stream", data, [], ["0", "0", str(k)])     # parse_async: empty chunks, then k bytes, then the rest
+                    add_s("sof-stream", data, [], [str(k), "0", "1", "0"])
+                    add_f("sof-readfail", 1 + (k % 3), data, [str(k)])
         self._dist = dist
         return cases, dist, True
 
